@@ -81,8 +81,8 @@ PROPS = {
     },
     "C16": {
         "streams": ["pack", "ignore"],
-        "theorems": "C16_history_independent (ignore-filtered walk under either reachable flag state), C16_flag_states, C16_spelling_independent (non-link source arguments), C16_symlinked_root_refuted (known finding KF-C16-1)",
-        "assumptions": _PACK_ASSUME + ["partial on schedules: concurrent Pack calls race on the shared default-rule flags (a Go data race); the theorem covers the reachable flag states, not torn accesses", "C16_history_independent is stated on the abstract ignore walk (Ignore/Prune.v); Pack's walk uses the same decision procedure (Rules.excludes) and is compared with the implementation under both flag states"],
+        "theorems": "C16_history_independent (ignore-filtered walk under either reachable flag state), C16_pack_history_independent (on the model of Pack itself: two Pack calls on the same file system, tree of regular files / directories / special files / links that stay inside, options, working directory and source path, started in any two reachable states of the shared default-rule flags - any history of earlier Pack calls and rule-file parsing - both succeed and write the same entries, file list and size; Slug/PackIgnore.v), C16_pack_history_instance, C16_flag_states, C16_spelling_independent (non-link source arguments), C16_symlinked_root_refuted (known finding KF-C16-1)",
+        "assumptions": _PACK_ASSUME + ["partial on schedules: concurrent Pack calls race on the shared default-rule flags (a Go data race); the theorem covers the reachable flag states, not torn accesses", "C16_history_independent is stated on the abstract ignore walk (Ignore/Prune.v), C16_pack_history_independent on the Pack model for trees whose links stay inside (rule_ok evaluated per run); with links that leave the tree or dereferencing, Pack's walk uses the same decision procedure (Rules.excludes) and is compared with the implementation under both flag states"],
     },
     "C19": {
         "streams": ["ignore", "pack", "unpack", "resolve", "addr", "manifest", "prepare"],
@@ -111,11 +111,11 @@ PROPS = {
     },
     "C03": {
         "streams": ["ignore", "pack"],
-        "theorems": "C03_compile_correct (pattern->regexp translation = segment-wise glob specification, all well-formed patterns x all newline-free paths), C03_negations_after_exact/_over, C03_last_match_wins, C03_dominating_sound, C03_prune_eq_filter (all trees), C03_defaults",
+        "theorems": "C03_compile_correct (pattern->regexp translation = segment-wise glob specification, all well-formed patterns x all newline-free paths), C03_negations_after_exact/_over, C03_last_match_wins, C03_dominating_sound, C03_prune_eq_filter (all trees), C03_defaults; on the model of Pack itself: C03_pack_ships_exactly_the_unexcluded (for every file system holding at the source path a tree of regular files, directories, special files and links that stay inside, any depth and width, every option set, working directory and state of the shared flags, and whatever rule set parseIgnoreFile loads: Pack succeeds and writes exactly the entries of the tree whose own path is not excluded - for a directory neither 'd' nor 'd/' -, in order, also below an excluded directory; pruning and the negations-after flags play no part; Slug/PackIgnore.v), C03_loaded_rules_have_sound_flags, C03_keep_is_own_path, C03_nothing_filtered_without_ignore, C03_pack_instance",
         "assumptions": [
             "modelled, not verified: Go's regexp on the expression shapes rule.compile emits (restated as Ignore/Rules.tmatch), text/scanner, bufio.ScanLines, strings.TrimSpace (ASCII); validated by the ignore stream through the verif hooks",
             "theorem 1 covers patterns of the documented language (each ** a whole segment, no character class, no backslash); character classes [a-z], backslash escapes and non-ASCII patterns are compared by the oracle/implementation only",
-            "rule_ok (a rule value ending in ** compiles to tokens ending in .*) is a hypothesis of theorems 4-5; it is evaluated (rule_okb) on every documented-language rule file of the stream",
+            "rule_ok (a rule value ending in ** compiles to tokens ending in .*) is a hypothesis of theorems 4, 5 and 7; it is evaluated (rule_okb) on every documented-language rule file of the stream; theorem 7 covers trees without links that leave the tree and names without a newline (the rest of the Pack model, dereferencing included, is compared with the implementation per run)",
         ],
     },
     "C08": {
@@ -130,8 +130,8 @@ PROPS = {
     },
     "C14": {
         "streams": ["bundle"],
-        "theorems": "C14_analyse_once (unconditional: analysis log = analysed list, NoDup), C14_fetch_once (fetch log = package-table keys, NoDup, where fetching never fails), C14_exactly_the_reachable_set; termination: not proved in general (watchdog on the implementation, fuel 4000 never exhausted in the model on any case; concrete cyclic Example)",
-        "assumptions": _BUILDER_ASSUME + ["termination of the drain loop is observed (20 s watchdog on every real build; model fuel never exhausted), not proved"],
+        "theorems": "C14_analyse_once (unconditional: analysis log = analysed list, NoDup), C14_fetch_once (fetch log = package-table keys, NoDup, where fetching never fails), C14_registry_once (where the registry never fails: the log of version-list requests = keys of the version cache, the log of source-address requests = keys of the resolution table, both NoDup; Bundle/BuilderTrace.v), C14_exactly_the_reachable_set, C14_trace_start_then_outcome / C14_trace_already_after_success / C14_trace_is_bracketed (every run, failing calls included: each start event is immediately followed by its own success or failure and nothing else, each already event has the matching success before it), C14_drain_terminates + C14_measure_bound (for every world whose reachable artifacts and registry requests lie in a finite universe closed under reported dependencies - cycles, diamonds and self references included - the draining loop returns once the fuel exceeds an explicit measure bounded by the queue lengths plus a constant of the universe), C14_cycle_terminates, C14_registry_instance",
+        "assumptions": _BUILDER_ASSUME + ["termination is a theorem of the model for finite universes; on the implementation every real build additionally runs under a 20 s watchdog (model fuel 4000 never exhausted on any case)"],
     },
     "C17": {
         "streams": ["versions", "bundle"],
